@@ -101,9 +101,18 @@ func IntToStr(x int) *string {
 	s := strconv.Itoa(x)
 	return &s
 }
-func FloatToInt(x float64) int       { called(); return clampInt(x) }
-func FloatToFloat(x float64) float64 { called(); return x + 0.5 }
-func FloatToBool(x float64) bool     { called(); return x > 0 }
+func FloatToInt(x float64) int { called(); return clampInt(x) }
+
+// the float and string functions do NOT propagate NaN/null: an implementation that skips the call for such
+// operands (as the library's own functions would allow) is visible
+func FloatToFloat(x float64) float64 {
+	called()
+	if x != x {
+		return 42.25
+	}
+	return x + 0.5
+}
+func FloatToBool(x float64) bool { called(); return x > 0 || x != x }
 func FloatToStr(x float64) *string {
 	called()
 	if math.IsNaN(x) {
@@ -153,15 +162,30 @@ func StrToBool(x *string) bool { called(); return x != nil && len(*x)%2 == 1 }
 func StrToStr(x *string) *string {
 	called()
 	if x == nil {
+		s := "nil!"
+		return &s
+	}
+	if *x == "" {
 		return nil
 	}
 	s := *x + "!"
 	return &s
 }
 
-func Int2(x, y int) int           { called(); return x - 2*y }
-func Float2(x, y float64) float64 { called(); return x - 2*y }
-func Bool2(x, y bool) bool        { called(); return x && !y }
+func Int2(x, y int) int { called(); return x - 2*y }
+func Float2(x, y float64) float64 {
+	called()
+	switch {
+	case x != x && y != y:
+		return 7
+	case x != x:
+		return y + 11
+	case y != y:
+		return x - 13
+	}
+	return x - 2*y
+}
+func Bool2(x, y bool) bool { called(); return x && !y }
 func Str2(x, y *string) *string {
 	called()
 	if x == nil && y == nil {
